@@ -35,6 +35,20 @@ def build_item(rnd, depth):
         return c14.CLS[name]([] if name not in ("A", "J") else "")
 
 
+HUNG = []
+
+
+def from_sml_guarded(text):
+    """Item.from_sml under a deadline: C15 says it terminates on every text"""
+    if HUNG:
+        raise valrig.Unobservable("a previous input already did not terminate")
+    try:
+        return common.with_deadline(lambda: Item.from_sml(text), 8.0)
+    except common.Wedged as exc:
+        HUNG.append({"text": text, "blocked_in": str(exc)[-600:]})
+        raise valrig.Unobservable("did not terminate") from exc
+
+
 def case_item(item):
     try:
         sml = item.to_sml()
@@ -43,7 +57,7 @@ def case_item(item):
     back = None
     if sml is not None:
         try:
-            back = c14.snapshot(Item.from_sml(sml))
+            back = c14.snapshot(from_sml_guarded(sml))
         except valrig.Unobservable:
             raise
         except Exception:  # noqa: BLE001
@@ -53,7 +67,7 @@ def case_item(item):
 
 def case_text(src, mutation):
     try:
-        res = f"(Some {c14.snapshot(Item.from_sml(src))})"
+        res = f"(Some {c14.snapshot(from_sml_guarded(src))})"
     except valrig.Unobservable:
         raise
     except RecursionError:
@@ -101,7 +115,10 @@ def gen_cases(rnd, tier):
     # strings over every code point of both text classes
     allb = bytes(range(256))
     for it in (c14.CLS["A"](allb), c14.CLS["J"](allb), c14.CLS["A"]('say "hi" \\ \'x\''), c14.CLS["A"]('"'), c14.CLS["A"]('""x""'), c14.CLS["B"](allb)):
-        lits.append(("item", case_item(it)[0]))
+        try:
+            lits.append(("item", case_item(it)[0]))
+        except valrig.Unobservable:
+            pass
     # random token strings (termination / agreement with the model)
     for _ in range(300 if tier == "quick" else 3000):
         toks = [rnd.choice(TOKENS) for _ in range(rnd.randint(0, 40))]
@@ -156,7 +173,10 @@ def run(tier, replay=None):
         report.violation({"kind": "broken-obligation", "obligation": "model Run/C15Run.vo does not build against the regenerated constants", "detail": log[-1500:], "also": proof.get("broken")}, False, tag="modelbuild")
         return report.finish()
     rnd = common.rng("c15")
+    del HUNG[:]
     lits = gen_cases(rnd, tier)
+    for h in HUNG[:1]:
+        report.violation({"kind": "counterexample", "what": "Item.from_sml did not terminate within 8 s on this text", **h, "broken_obligation": proof.get("broken")}, True, tag="hang")
     bad, stats = evaluate(lits, "c15")
     c16.decide_lits(report, "C15", lits, bad, stats, proof, SPEC_CODES, MODEL_CODES)
     import hashlib
